@@ -77,14 +77,29 @@ theorem c02_accept_takes_one (cfg : Cfg) (s : St) (now dp pf ps prio sa : Nat) (
       obtain ⟨h1, h2, _⟩ := poolGet_some _ _ _ hg
       exact ⟨i, h1, by simp [h2], by simp⟩
 
+theorem processCm_keeps_pools (cfg : Cfg) (s : St) (now : Nat) (mid : MessageId) (dest : Nat) (data : List Nat) :
+    (processCm cfg s now mid dest data).st.rtsPool = s.rtsPool ∧ (processCm cfg s now mid dest data).st.bamPool = s.bamPool := by
+  unfold processCm
+  dsimp only
+  split
+  · exact ⟨rfl, rfl⟩
+  · split
+    · exact ⟨rfl, rfl⟩
+    · (repeat' split) <;> exact ⟨rfl, rfl⟩
+
+theorem processDt_keeps_pools (s : St) (now : Nat) (mid : MessageId) (dest : Nat) (data : List Nat) :
+    (processDt s now mid dest data).st.rtsPool = s.rtsPool ∧ (processDt s now mid dest data).st.bamPool = s.bamPool := by
+  unfold processDt; dsimp only; (repeat' split) <;> exact ⟨rfl, rfl⟩
+
 /-- INBOUND NEVER TOUCHES THE POOLS: no received frame — whatever it is — changes either session pool -/
 theorem c02_notify_keeps_pools (cfg : Cfg) (s : St) (now : Nat) (acc : Nat → Bool) (canId : Nat) (data : List Nat) :
     (notify cfg s now acc canId data).st.rtsPool = s.rtsPool ∧ (notify cfg s now acc canId data).st.bamPool = s.bamPool := by
   unfold notify
   dsimp only
-  (repeat' split) <;> try exact ⟨rfl, rfl⟩
-  · unfold processCm; dsimp only; (repeat' split) <;> exact ⟨rfl, rfl⟩
-  · unfold processDt; dsimp only; (repeat' split) <;> exact ⟨rfl, rfl⟩
+  (repeat' split) <;> first
+    | exact ⟨rfl, rfl⟩
+    | exact processCm_keeps_pools ..
+    | exact processDt_keeps_pools ..
 
 /-- the advertised capacity is the reflected pool sizes: 8 destination-specific and 4 broadcast sessions -/
 theorem c02_capacity : Const.Pool.rts_cts = 8 ∧ Const.Pool.bam = 4 ∧ (St.rtsPool {}).length = 8 ∧ (St.bamPool {}).length = 4 := by decide
@@ -191,7 +206,7 @@ theorem c02_built_frame_is_segframe (data : List Nat) (src dest session k : Nat)
 
 /-- C02, RECEPTION IS EXACT (FD.TP, broadcast and connection mode): a responder record opened for a message of
     `data.length` bytes, fed the segment frames of `data` in order at arbitrary times (the frames of this stack or of any
-    conforming originator) and then the end-of-message status, hands `data` up EXACTLY ONCE — byte-identical, with the
+    conforming originator — its source address is not the global address, repair of D29) and then the end-of-message status, hands `data` up EXACTLY ONCE — byte-identical, with the
     announced PGN — removes the record and never touches the send table -/
 theorem c02_reception_exact (cfg : Cfg) (data : List Nat) (hpos : 0 < data.length) (mid : MessageId) (dest session : Nat)
     (frames : List (Nat × List Nat)) (hfl : frames.length = Tp22.num_segments data.length)
@@ -200,7 +215,8 @@ theorem c02_reception_exact (cfg : Cfg) (data : List Nat) (hpos : 0 < data.lengt
     (hsize : r.messageSize = data.length) (hnext : r.nextPacket = 1) (hdata : r.data = [])
     (hmr : dest ≠ Const.Addr.GLOBAL → (∃ b, r.ctsBorder = some b) ∧ ∃ m, r.maxRec = some m)
     (now : Nat) (eom : List Nat) (hel : 12 ≤ eom.length) (hec : Tp22.cm_control eom = Const.CM22.EOM_STATUS)
-    (hes : Tp22.cm_session eom = session) (hesz : Tp22.cm_size eom = data.length) (hen : Tp22.cm_segment eom = r.numSegments) :
+    (hes : Tp22.cm_session eom = session) (hesz : Tp22.cm_size eom = data.length) (hen : Tp22.cm_segment eom = r.numSegments)
+    (hsrc : mid.source_address ≠ Const.Addr.GLOBAL) :
     let s1 := (feedDt s mid dest frames).1
     deliveries ((feedDt s mid dest frames).2 ++ (processCm cfg s1 now mid dest eom).outs)
       = [(mid.priority, r.pgn, mid.source_address, dest, data)] ∧
@@ -213,7 +229,7 @@ theorem c02_reception_exact (cfg : Cfg) (data : List Nat) (hpos : 0 < data.lengt
   obtain ⟨a1, a2, r', hr', h1, h2, h3, h4⟩ := feed22_accumulates data hpos mid dest session (Tp22.num_segments data.length) 0
     (by omega) hn frames hfl (by intro i hi; simpa using hframes i hi) s r hr hsize (by simpa using hnext) (by simpa using hdata) hmr
   obtain ⟨e1, e2, e3, e4⟩ := eom22_delivers cfg s1 now mid dest eom r' session hel hec hes (by rw [hesz, h2]) (by rw [hen, h3]) hr'
-    (by rw [h1, h2])
+    (by rw [h1, h2]) hsrc
   refine ⟨?_, e2, e3, by rw [e4, a2]⟩
   rw [deliveries_append, a1, e1, h4, h1]; rfl
 
